@@ -21,6 +21,8 @@ const (
 	tAfter      = 400 * usMs // issue time of the last request in mode "after"
 	throttleMs  = 300
 
+	tdeathThrottleMs = 60000 // "large" throttle of the tdeath family: far above every configured timeout
+
 	overhead       = time.Second // kgo.RequestTimeoutOverhead: read and write timeout of a Metadata request
 	defaultMaxRead = int32(1024) // kgo.BrokerMaxReadBytes (the smallest value the client accepts)
 	bigMaxRead     = int32(1 << 20)
@@ -49,7 +51,11 @@ type Case struct {
 	IssueUs  []int64    `json:"issue_us"`
 	Cancel   int        `json:"cancel"`    // request index, -1 = none
 	CancelUs int64      `json:"cancel_us"` // -1: the context is cancelled before the call
-	Steps    []stepSpec `json:"steps"`
+	// ExtraThrottleMs is the sum of the ThrottleMillis of all scripted
+	// responses beyond the 300ms per request that bound() already allows:
+	// while the connection lives, the client legitimately sleeps them out.
+	ExtraThrottleMs int64      `json:"extra_throttle_ms,omitempty"`
+	Steps           []stepSpec `json:"steps"`
 }
 
 func (c *Case) script() []sbroker.Step {
@@ -91,7 +97,7 @@ func issueTimes(n int, mode string) []int64 {
 	t := make([]int64, n)
 	switch mode {
 	case "simul":
-	case "stagger", "late", "after":
+	case "stagger", "late", "after", "late2":
 		for i := range t {
 			t[i] = int64(i) * usMs
 		}
@@ -99,18 +105,30 @@ func issueTimes(n int, mode string) []int64 {
 			t[n-1] = tLate
 		} else if mode == "after" {
 			t[n-1] = tAfter
+		} else if mode == "late2" && n >= 2 { // the last two requests, 1ms apart
+			t[n-2], t[n-1] = tLate, tLate+usMs
 		}
 	}
 	return t
 }
 
+// earlyCount is the number of requests issued before the first chunk.
+func earlyCount(n int, mode string) int {
+	switch mode {
+	case "late", "after":
+		return n - 1
+	case "late2":
+		return max(n-2, 0)
+	}
+	return n
+}
+
 // gates: in the modes simul/stagger every chunk waits for all n requests; in
-// late/after the last chunk waits for the last request, the others for n-1.
+// late/after (late2) the chunks of the last (two) request(s) wait for all n
+// requests, the others for the early ones.
 func gateOf(n int, mode string, pos int) int {
-	if mode == "late" || mode == "after" {
-		if pos < n-1 {
-			return n - 1
-		}
+	if e := earlyCount(n, mode); pos < e {
+		return e
 	}
 	return n
 }
@@ -403,6 +421,88 @@ func enumerate(l limits, yield func(c *Case)) {
 				for _, end := range []string{endIdle, endClose} {
 					yield(mk("throttle", fmt.Sprintf("every response has ThrottleMillis=%d, then %s", throttleMs, end), n, ver, mode,
 						buildSteps(n, mode, baseFrames(n, ver, throttleMs), -1, 0, end)))
+				}
+			}
+		}
+	}
+
+	// ---- family "tdeath": throttles and connection death. Script alphabet
+	// per pipelined request, in slot order: R respond, T respond with
+	// ThrottleMillis=60s, W withhold the response; plus close-connection
+	// before any slot's step or after the last (or never). Every word over
+	// {R,T,W}^n with every close position (the steps after a close cannot be
+	// observed, so a close before slot c is enumerated with words of length
+	// c). A request issued after a T response sleeps the throttle out before
+	// it is written; if the connection dies meanwhile (close seen as EOF by a
+	// withheld request, or that request's read timeout) it must not keep
+	// sleeping.
+	for n := 2; n <= l.maxN+1; n++ {
+		for _, ver := range bothVers {
+			for _, mode := range []string{"simul", "stagger", "late", "late2", "after"} {
+				if mode == "late2" && n < 3 {
+					continue
+				}
+				for closeAt := -1; closeAt <= n; closeAt++ {
+					wl := n
+					if closeAt >= 0 {
+						wl = closeAt
+					}
+					word := make([]byte, wl)
+					var rec func(pos int)
+					rec = func(pos int) {
+						if pos < wl {
+							for _, a := range []byte("RTW") {
+								word[pos] = a
+								rec(pos + 1)
+							}
+							return
+						}
+						var steps []stepSpec
+						var extra int64
+						lastGate := -1
+						place := func(gate int, isClose bool, b []byte) {
+							d := 20 * usMs
+							switch {
+							case lastGate == -1:
+								d = tFirstChunk
+							case isClose:
+								d = 100 * usMs
+							case gate != lastGate:
+								d = tNextGate
+							}
+							if isClose {
+								if lastGate >= 0 {
+									gate = lastGate
+								}
+							}
+							lastGate = gate
+							steps = append(steps, stepSpec{Need: gate, DelayUs: d, Hex: hex.EncodeToString(b), Close: isClose})
+						}
+						for slot := 0; slot <= wl; slot++ {
+							if slot == closeAt {
+								place(gateOf(n, mode, min(slot, n-1)), true, nil)
+								break
+							}
+							if slot == wl {
+								break
+							}
+							switch word[slot] {
+							case 'R':
+								place(gateOf(n, mode, slot), false, metadataFrame(ver, corrOfSlot(slot), markerOf(slot), 0))
+							case 'T':
+								extra += tdeathThrottleMs
+								place(gateOf(n, mode, slot), false, metadataFrame(ver, corrOfSlot(slot), markerOf(slot), tdeathThrottleMs))
+							}
+						}
+						desc := fmt.Sprintf("script %q (R respond, T respond with ThrottleMillis=%d, W withhold)", word, tdeathThrottleMs)
+						if closeAt >= 0 {
+							desc += fmt.Sprintf(", then close-connection (before slot %d's step)", closeAt)
+						}
+						c := mk("tdeath", desc, n, ver, mode, steps)
+						c.ExtraThrottleMs = extra
+						yield(c)
+					}
+					rec(0)
 				}
 			}
 		}
